@@ -198,6 +198,18 @@ def vectors(body, start=0):
     return out
 
 
+_bombs = {}
+
+
+def bomb_blob(mib):
+    """built (and kept) outside the traced window: the harness's own
+    allocation must not count against the victim"""
+    if mib not in _bombs:
+        import zlib
+        _bombs[mib] = zlib.compress(b"\x00" * (mib * 2 ** 20), 9)
+    return _bombs[mib]
+
+
 def mutate(data, m):
     """data = one handshake message; returns mutated bytes or None."""
     t = data[0]
@@ -247,6 +259,20 @@ def mutate(data, m):
                                                     max(ln, 1), "big")
                }[m[2]]
         nb = body[:p] + len(new).to_bytes(2, "big") + new + body[p + 2 + ln:]
+        return fixlen(t, nb)
+    if k == "bomb":
+        # CompressedCertificate: a stream that inflates far beyond the
+        # (small, in-bounds) length it declares
+        if t != 25 or len(body) < 8:
+            return None
+        import zlib
+        alg = int.from_bytes(body[0:2], "big")
+        if alg != 1:
+            return None
+        blob = bomb_blob(m[1])
+        declared = int.from_bytes(body[2:5], "big") if m[2] else 1000
+        nb = body[0:2] + declared.to_bytes(3, "big") + \
+            len(blob).to_bytes(3, "big") + blob
         return fixlen(t, nb)
     if k == "ext":
         return mutate_ext(data, m)
@@ -410,7 +436,9 @@ def check(case):
         Deviant(cc if side == "c" else scn, fn)
     client, server = opts_for(name)
     DET.reseed("C08", name)
-    measure = case.get("mem") or case["m"][0] in ("hugelen",)
+    measure = case.get("mem") or case["m"][0] in ("hugelen", "bomb")
+    if case["m"][0] == "bomb":
+        bomb_blob(case["m"][1])
     if measure:
         tracemalloc.start()
         tracemalloc.reset_peak()
@@ -712,6 +740,11 @@ def explicit(tier, seed):
             for idx, (t, ln) in enumerate(tr[side]):
                 for m in fixed:
                     yield {"fl": fl, "side": side, "idx": idx, "m": m}
+                if t == 25:
+                    for mb in (8, 32):
+                        for keep in (0, 1):
+                            yield {"fl": fl, "side": side, "idx": idx,
+                                   "m": ["bomb", mb, keep]}
                 if t in (1, 2, 8):
                     for m in ext_fixed:
                         yield {"fl": fl, "side": side, "idx": idx, "m": m}
